@@ -19,15 +19,13 @@ theorem winansi_lt (b c : Nat) (h : winansi b = some c) : b < 256 := by
     split at h <;> first | omega | (simp at h; omega)
 
 theorem winansi_agree_small :
-    ∀ b, b < 256 → b ≠ 0x93 → b ≠ 0x94 → ∀ c, winansi b = some c → winansiImpl b = c := by
+    ∀ b, b < 256 → ∀ c, winansi b = some c → winansiImpl b = c := by
   decide +kernel
 
-theorem winansi_agree (b c : Nat) (h : winansi b = some c) (h3 : b ≠ 0x93) (h4 : b ≠ 0x94) :
-    winansiImpl b = c :=
-  winansi_agree_small b (winansi_lt b c h) h3 h4 c h
+theorem winansi_agree (b c : Nat) (h : winansi b = some c) : winansiImpl b = c :=
+  winansi_agree_small b (winansi_lt b c h) c h
 
-theorem mapM_winansi (bs cs : List Nat) (h : bs.mapM winansi = some cs)
-    (hq : bs.any (fun b => b == 0x93 || b == 0x94) = false) : bs.map winansiImpl = cs := by
+theorem mapM_winansi (bs cs : List Nat) (h : bs.mapM winansi = some cs) : bs.map winansiImpl = cs := by
   induction bs generalizing cs with
   | nil => simp at h; simp [h]
   | cons b r ih =>
@@ -39,10 +37,7 @@ theorem mapM_winansi (bs cs : List Nat) (h : bs.mapM winansi = some cs)
       | none => simp [hb, hr] at h
       | some cr =>
         simp [hb, hr] at h
-        simp only [List.any_cons, Bool.or_eq_false_iff] at hq
-        have h3 : b ≠ 0x93 := by intro e; simp [e] at hq
-        have h4 : b ≠ 0x94 := by intro e; simp [e] at hq
-        rw [← h, List.map_cons, winansi_agree b c hb h3 h4, ih cr hr hq.2]
+        rw [← h, List.map_cons, winansi_agree b c hb, ih cr hr]
 
 theorem toUnicode_eq (base n : Nat) (extras : List (Nat × List Nat)) (code : Nat) :
     toUnicode base n extras code
@@ -124,7 +119,7 @@ theorem decT0_codes (base n : Nat) (extras : List (Nat × List Nat)) (codes : Li
 /-- what `Spec.chars` guarantees about a string operand -/
 theorem chars_spec (f : Font) (bs cs : List Nat) (h : Spec.chars f bs = some cs) :
     (cs.any isControl = false) ∧ (cs = [] ↔ bs = []) ∧
-    ((f = .simple → bs.any (fun b => b == 0x93 || b == 0x94) = false) → decodeWithFont f bs = cs) := by
+    decodeWithFont f bs = cs := by
   unfold Spec.chars at h
   simp only at h
   cases f with
@@ -143,8 +138,7 @@ theorem chars_spec (f : Font) (bs cs : List Nat) (h : Spec.chars f bs = some cs)
         · constructor
           · intro e; subst e; simpa using hlen.symm
           · intro e; subst e; simpa using hlen
-        · intro hq
-          exact mapM_winansi bs s hm (hq rfl)
+        · exact mapM_winansi bs s hm
   | type0 base n extras =>
     simp only at h
     cases hcodes : codes2 bs with
@@ -189,8 +183,7 @@ theorem chars_spec (f : Font) (bs cs : List Nat) (h : Spec.chars f bs = some cs)
             · intro e; subst e
               simp [codes2] at hcodes; subst hcodes
               simp at hm; subst hm; rfl
-          · intro _
-            simp only [decodeWithFont]
+          · simp only [decodeWithFont]
             exact decT0_codes base n extras codes bs _ css hcodes hm (by omega)
 
 /-! ### sanitisation of control-free text -/
@@ -279,11 +272,10 @@ theorem usable_of_clean (s : List Nat) (hne : s ≠ []) (hc : s.any isControl = 
     simp [decodeIsUsable, hc.1]
 
 /-- `decode_text` on an operand the reference semantics assigns characters to -/
-theorem decodeText_sim (cr : Nat) (f : Font) (bs cs : List Nat) (h : Spec.chars f bs = some cs)
-    (hq : f = .simple → bs.any (fun b => b == 0x93 || b == 0x94) = false) :
+theorem decodeText_sim (cr : Nat) (f : Font) (bs cs : List Nat) (h : Spec.chars f bs = some cs) :
     ∃ d, decodeText cr (some (some f)) bs = some d ∧ nonWs d = nonWs cs ∧ (d = [] ↔ cs = []) := by
   obtain ⟨hctl, hnil, hdec⟩ := chars_spec f bs cs h
-  have hd := hdec hq
+  have hd := hdec
   by_cases hcs : cs = []
   · have hb : bs = [] := hnil.1 hcs
     subst hb; subst hcs
@@ -298,30 +290,26 @@ theorem decodeText_sim (cr : Nat) (f : Font) (bs cs : List Nat) (h : Spec.chars 
 
 /-! ### the reference run only ever leaves the "clean" set, never re-enters it -/
 
-/-- inside the property's domain and none of the three listed defects exercised -/
-def good (s : SSt) : Bool := s.ok && !s.nestedAT && !s.quotes && !s.inherited
+/-- inside the property's domain and none of the listed open defects exercised -/
+def good (s : SSt) : Bool := s.ok && !s.nestedAT && !s.inherited
 
 structure Mono (s s' : SSt) : Prop where
   ok : s'.ok = true → s.ok = true
   n : s.nestedAT = true → s'.nestedAT = true
-  q : s.quotes = true → s'.quotes = true
   i : s.inherited = true → s'.inherited = true
 
-theorem Mono.refl (s : SSt) : Mono s s := ⟨id, id, id, id⟩
+theorem Mono.refl (s : SSt) : Mono s s := ⟨id, id, id⟩
 
 theorem Mono.trans {a b c : SSt} (h1 : Mono a b) (h2 : Mono b c) : Mono a c :=
-  ⟨fun h => h1.ok (h2.ok h), fun h => h2.n (h1.n h), fun h => h2.q (h1.q h), fun h => h2.i (h1.i h)⟩
+  ⟨fun h => h1.ok (h2.ok h), fun h => h2.n (h1.n h), fun h => h2.i (h1.i h)⟩
 
 theorem Mono.good {s s' : SSt} (h : Mono s s') (g : good s' = true) : good s = true := by
   simp only [C11.good, Bool.and_eq_true, Bool.not_eq_true'] at g ⊢
-  obtain ⟨⟨⟨g1, g2⟩, g3⟩, g4⟩ := g
-  refine ⟨⟨⟨h.ok g1, ?_⟩, ?_⟩, ?_⟩
+  obtain ⟨⟨g1, g2⟩, g4⟩ := g
+  refine ⟨⟨h.ok g1, ?_⟩, ?_⟩
   · cases hn : s.nestedAT
     · rfl
     · rw [h.n hn] at g2; exact absurd g2 (by simp)
-  · cases hn : s.quotes
-    · rfl
-    · rw [h.q hn] at g3; exact absurd g3 (by simp)
   · cases hn : s.inherited
     · rfl
     · rw [h.i hn] at g4; exact absurd g4 (by simp)
@@ -335,13 +323,12 @@ theorem good_bad (r : String) (s : SSt) : good (bad r s) = false := by
 theorem mono_bad (r : String) (s : SSt) : Mono s (bad r s) := by
   unfold bad
   split
-  · exact ⟨by simp, by simp, by simp, by simp⟩
+  · exact ⟨by simp, by simp, by simp⟩
   · exact Mono.refl s
 
 theorem mono_flagS (f : Font) (bs : List Nat) (s : SSt) : Mono s (flagS f bs s) := by
   unfold flagS
-  simp only
-  split <;> split <;> exact ⟨by simp, by simp, by simp, by simp⟩
+  split <;> exact ⟨by simp, by simp, by simp⟩
 
 theorem mono_emitS (ia : Bool) (cs : List Nat) (s : SSt) : Mono s (emitS ia cs s) := by
   unfold emitS
@@ -350,8 +337,8 @@ theorem mono_emitS (ia : Bool) (cs : List Nat) (s : SSt) : Mono s (emitS ia cs s
   · split
     · split
       · exact Mono.refl s
-      · exact ⟨id, id, id, id⟩
-    · exact ⟨id, id, id, id⟩
+      · exact ⟨id, id, id⟩
+    · exact ⟨id, id, id⟩
 
 theorem mono_showS (ia : Bool) (bs : List Nat) (s : SSt) : Mono s (showS ia bs s) := by
   unfold showS
@@ -376,9 +363,9 @@ theorem mono_closeScope (ia : Bool) (s : SSt) : Mono s (closeScope ia s) := by
     · exact mono_bad _ _
     · split
       · split
-        · split <;> exact ⟨id, id, id, id⟩
-        · exact ⟨id, id, id, id⟩
-      · exact ⟨id, id, id, id⟩
+        · split <;> exact ⟨id, id, id⟩
+        · exact ⟨id, id, id⟩
+      · exact ⟨id, id, id⟩
 
 theorem mono_foldl_show (ia : Bool) (items : List TjItem) (s : SSt) :
     Mono s (items.foldl (fun s it => match it with
@@ -395,14 +382,14 @@ theorem mono_foldl_show (ia : Bool) (items : List TjItem) (s : SSt) :
 theorem mono_stepS (P : Prog) (ia : Bool) (fmap : List Nat) (op : Op) (s : SSt) :
     Mono s (stepS P ia fmap op s) := by
   cases op <;> simp only [stepS]
-  case bt => split; exact mono_bad _ _; exact ⟨id, id, id, id⟩
-  case et => split; exact ⟨id, id, id, id⟩; exact mono_bad _ _
-  case q => split; exact mono_bad _ _; exact ⟨id, id, id, id⟩
-  case Q => split; exact ⟨id, id, id, id⟩; exact mono_bad _ _
+  case bt => split; exact mono_bad _ _; exact ⟨id, id, id⟩
+  case et => split; exact ⟨id, id, id⟩; exact mono_bad _ _
+  case q => split; exact mono_bad _ _; exact ⟨id, id, id⟩
+  case Q => split; exact ⟨id, id, id⟩; exact mono_bad _ _
   case tf nm =>
     split
     · split
-      · exact ⟨id, id, id, id⟩
+      · exact ⟨id, id, id⟩
       · exact mono_bad _ _
     · exact mono_bad _ _
   case tj bs => exact mono_showS ia bs s
@@ -441,8 +428,8 @@ theorem mono_levelS (P : Prog) (ia : Bool) (d j : Nat) (s : SSt) : Mono s (level
         { s with saved := [], qDepth := 0, mcLocal := 0, inText := false, fontLocal := false }
       split
       · have h2 := Mono.trans h1 (mono_bad "form-leaves-scope-or-text-object-open" _)
-        exact ⟨h2.ok, h2.n, h2.q, h2.i⟩
-      · exact ⟨h1.ok, h1.n, h1.q, h1.i⟩
+        exact ⟨h2.ok, h2.n, h2.i⟩
+      · exact ⟨h1.ok, h1.n, h1.i⟩
 
 /-! ### the simulation relation -/
 
@@ -548,27 +535,17 @@ theorem lookup_cacheFonts (fmap : List Nat) (c : Cache) (nm g : Nat) (h : fmap[n
 /-! ### showing a string -/
 
 theorem flagS_good (f : Font) (bs : List Nat) (s : SSt) (hg : good (flagS f bs s) = true) :
-    flagS f bs s = s ∧ (s.fontLocal = false → bs = []) ∧
-    (f = .simple → bs.any (fun b => b == 0x93 || b == 0x94) = false) := by
+    flagS f bs s = s ∧ (s.fontLocal = false → bs = []) := by
   unfold flagS at hg ⊢
-  simp only at hg ⊢
   by_cases h1 : (!s.fontLocal && !bs.isEmpty) = true
   · exfalso
     simp only [h1, ↓reduceIte] at hg
-    split at hg <;> simp [good] at hg
+    simp [good] at hg
   · simp only [h1, Bool.false_eq_true, ↓reduceIte] at hg ⊢
-    by_cases h2 : (f == Font.simple && bs.any fun b => b == 0x93 || b == 0x94) = true
-    · exfalso
-      simp only [h2, ↓reduceIte] at hg
-      simp [good] at hg
-    · simp only [h2, Bool.false_eq_true, ↓reduceIte]
-      refine ⟨by first | rfl | trivial, ?_, ?_⟩
-      · intro hl
-        simp [hl] at h1
-        exact h1
-      · intro hf
-        subst hf
-        simpa using h2
+    refine ⟨by first | rfl | trivial, ?_⟩
+    intro hl
+    simp [hl] at h1
+    exact h1
 
 theorem showStr_sim (P : Prog) (ia : Bool) (cr : Nat) (c : Cache) (k : SepK) (bs : List Nat)
     (st : St) (s : SSt) (hrel : Rel P c st s) (hg : good (showS ia bs s) = true) :
@@ -586,7 +563,7 @@ theorem showStr_sim (P : Prog) (ia : Bool) (cr : Nat) (c : Cache) (k : SepK) (bs
     | some cs =>
       simp only [hc] at hg ⊢
       have hg1 : good (flagS f bs s) = true := (mono_emitS ia cs _).good hg
-      obtain ⟨hfl, hloc, hq⟩ := flagS_good f bs s hg1
+      obtain ⟨hfl, hloc⟩ := flagS_good f bs s hg1
       rw [hfl] at hg ⊢
       -- the decoded string
       have hdec : ∃ d, decodeText cr (resolveFont P c st.font) bs = some d ∧ nonWs d = nonWs cs ∧
@@ -601,7 +578,7 @@ theorem showStr_sim (P : Prog) (ia : Bool) (cr : Nat) (c : Cache) (k : SepK) (bs
         | true =>
           have := hrel.font hl
           rw [this, hf]
-          exact decodeText_sim cr f bs cs hc hq
+          exact decodeText_sim cr f bs cs hc
       obtain ⟨d, hd1, hd2, hd3⟩ := hdec
       have hskip : skipArtifact ia st = (s.mc.any id && !ia) := by
         simp [skipArtifact, hrel.mc, cum_any, Bool.and_comm]
